@@ -28,6 +28,13 @@ impl Arena {
         self.items.borrow_mut().push((p as *mut u8, drop_box::<T>));
         unsafe { &*p }
     }
+    /// the only reference to the new item is the one returned
+    #[allow(clippy::mut_from_ref)]
+    pub fn alloc_mut<'a, T: 'a>(&'a self, v: T) -> &'a mut T {
+        let p = Box::into_raw(Box::new(v));
+        self.items.borrow_mut().push((p as *mut u8, drop_box::<T>));
+        unsafe { &mut *p }
+    }
 }
 
 impl Drop for Arena {
